@@ -6,8 +6,9 @@
 (*  GKSpec  abstract message triples for the codec inverse law                      *)
 EXTENDS Wire, Json
 CONSTANTS Depth,      \* GCSpec: sequences of length <= Depth ...
-          FullDepth,  \* ... over all Classes up to FullDepth, over Core beyond
-          Core
+          FullDepth,  \* ... over all Classes up to length FullDepth,
+          WideDepth,  \* ... over Wide up to length WideDepth, over Core beyond
+          Wide, Core
 VARIABLE hist
 gvars == <<vars, hist>>
 
@@ -35,7 +36,8 @@ EmitF == (pos = Len(stream)) =>
 (* ---- line class sequences ---- *)
 GLine(c) ==
     /\ Len(hist) < Depth
-    /\ Len(hist) >= FullDepth => (c \in Core /\ \A i \in 1 .. Len(hist) : hist[i].cls \in Core)
+    /\ Len(hist) >= FullDepth => (c \in Wide /\ \A i \in 1 .. Len(hist) : hist[i].cls \in Wide)
+    /\ Len(hist) >= WideDepth => (c \in Core /\ \A i \in 1 .. Len(hist) : hist[i].cls \in Core)
     /\ hist' = Append(hist, [act |-> "line", cls |-> c, exp |-> [owed |-> Len(hist) + 1]])
     /\ UNCHANGED vars
 GCInit == FIdle /\ LInit /\ SInit /\ hist = <<>>
